@@ -567,7 +567,12 @@ func genReloadCase(r *prng.R) []string {
 		for _, e := range pool {
 			if r.Chance(55) {
 				f := strings.SplitN(e, "@", 2)
-				eps = append(eps, f[0]+"@"+proto.Enc(f[1]))
+				ep := f[0] + "@" + proto.Enc(f[1])
+				if r.Chance(45) {
+					// several plugins: one registered entry per ENABLED plugin (multiplicities 0..5 of one expression)
+					ep += "@" + genFlags(r, 3) + "@" + genFlags(r, 2)
+				}
+				eps = append(eps, ep)
 			}
 		}
 		g := 0
@@ -595,6 +600,9 @@ func genReloadCase(r *prng.R) []string {
 			}
 		}
 		last = req
+		if r.Chance(12) {
+			req += " now=1" // the fail-safe reverts: un-manage immediately
+		}
 		if r.Chance(15) {
 			// the admin server refuses some of the PUTs of this update (any fault point of the request)
 			ops = append(ops, fmt.Sprintf("fail put=%d del=0", r.Range(1, 3)))
@@ -622,7 +630,22 @@ func genReloadFamily(r *prng.R, k int) []string {
 	ops := []string{"mode reload"}
 	x := "GET@api.com/x"
 	gap := prng.Pick(r, []int64{0, 1, 10000, 29999})
-	switch k % 4 {
+	switch k % 6 {
+	case 4: // multiplicity 2 -> 1 of the SAME expression (one of two plugins disabled), scheduled and immediate
+		from := prng.Pick(r, []string{"@1,1@-", "@1@1", "@-@1,1", "@1,1,1@1"})
+		to := prng.Pick(r, []string{"@1,0@-", "@1@0", "@-@0,1", "@0,0,1@0"})
+		now := ""
+		if k%12 >= 6 {
+			now = " now=1"
+		}
+		ops = append(ops, "reload g=0 eps="+x+from+";POST@api.com/y", "managed?", "reload g=0 eps="+x+to+now, "managed?",
+			"advance ms=30000", "managed?")
+	case 5: // the same expression from two endpoints (same method+URL declared twice), then once
+		now := ""
+		if k%12 >= 6 {
+			now = " now=1"
+		}
+		ops = append(ops, "reload g=0 eps="+x+";"+x+";PUT@api.com/z", "reload g=0 eps="+x+now, "advance ms=30000", "managed?")
 	case 0: // global on -> off -> on within 30 s, then look after the first and the second deadline
 		ops = append(ops, "reload g=1 eps="+x, "reload g=0 eps="+x, fmt.Sprintf("advance ms=%d", gap),
 			"reload g=1 eps="+x, fmt.Sprintf("advance ms=%d", 30000-gap), "managed?", "advance ms=30000", "managed?")
@@ -706,7 +729,7 @@ func gen(r *prng.R, f proto.Flags, emit func(proto.Case)) {
 		rr := r.Fork()
 		out("rl", genReloadCase(rr), rr)
 	}
-	for k := 0; k < nReload/5+8; k++ {
+	for k := 0; k < nReload/5+12; k++ {
 		rr := r.Fork()
 		out("rf", genReloadFamily(rr, k), nil)
 	}
